@@ -624,6 +624,21 @@ func abandonedLookupCanDeliver(c *kit.Ctx) {
 		if f == nil || len(f.Blocks) == 0 {
 			return
 		}
+		// a goroutine that signals by closing a channel (and leaves its result in captured variables) cannot block
+		sends, closes := 0, 0
+		kit.Instrs(f, func(in ssa.Instruction) {
+			if _, ok := in.(*ssa.Send); ok {
+				sends++
+			}
+			if call, ok := in.(*ssa.Call); ok && kit.CalleeName(call) == "builtin.close" {
+				closes++
+			}
+		})
+		if sends == 0 && closes > 0 {
+			n++
+			c.OK(f, "abandoned-lookup-can-deliver", g.Pos(), "the goroutine of the ZooKeeper lookup signals by closing a channel: it cannot block")
+			return
+		}
 		kit.Instrs(f, func(in ssa.Instruction) {
 			s, ok := in.(*ssa.Send)
 			if !ok {
